@@ -318,3 +318,114 @@ CONCRETE["e2e:cdda_names"] = {
              "so that an escaping path is observable",
     "timeout_s": 60.0, "budget_quick": 120, "budget_thorough": 600,
 }
+
+
+# ================================================================================== directory-level names (AKAI volumes / partitions)
+def _build_dirs(inputs):
+    L = _lib()
+
+    def run():
+        vols = []
+        k = 0
+        for vn in inputs["volumes"]:
+            files = [_sample("SA", 20, 500 + 2 * k), _sample("SB", 20, 501 + 2 * k)]      # the SAME file names in every volume
+            vols.append(_vol(vn, files))
+            k += 1
+        parts = [{"size_sectors": 128, "volumes": vols}]
+        if inputs.get("tail") == "cut-second-partition":
+            parts.append({"size_sectors": 128, "volumes": [_vol("ZZ", [_sample("ZZ", 20, 999)])]})
+        raw = L.aw.build_akai_image(expand_akai({"partitions": parts}))
+        if inputs.get("tail") == "zeros":
+            raw = raw + bytes(3000)
+        elif inputs.get("tail") == "cut-second-partition":
+            raw = raw[:128 * 8192 + 1000]
+        with L.Workdir() as w:
+            img = w.file("img.akai", raw)
+            dest = w.sub(os.path.join("a", "dest"))
+            before = set(L.read_tree(w.path))
+            stdout, err = L.do_export(img, dest)
+            after = L.read_tree(w.path)
+            pre = "a/dest/"
+            res = {"files": {p[len(pre):]: v for p, v in after.items() if p.startswith(pre)},
+                   "outside": sorted(p for p in after if not p.startswith(pre) and p not in before),
+                   "stdout": stdout, "error": type(err).__name__ if err else None, "n_samples": 2 * len(inputs["volumes"])}
+            o, e = L.do_ls(img, "A:")
+            res["vol_names"] = L.ls_table_names(o) if e is None else None
+            return res
+    return {"call": run, "env": {}}
+
+
+def _oracle_dirs(inputs, kind, val, env):
+    L = _lib()
+    if kind != "return":
+        return []
+    if val["error"]:
+        return [f"export-raised({val['error']})"]
+    bad = []
+    files = val["files"]
+    n_lines = len(L.exported_lines(val["stdout"]))
+    if n_lines != len(files) + len(val["outside"]):
+        bad.append(f"C06.files-on-disk-equal-Exported-lines(lines={n_lines},files={len(files)})")
+    if val["outside"]:
+        bad.append(f"C06.inside-destination({val['outside']})")
+    for p in files:
+        cp = L.component_problems(p)
+        if cp:
+            bad.append(f"C06.component-safe({p!r}: {cp})")
+    # every sample of every volume is found exactly once, as a mono file
+    want = {i: L.pcm_words(500 + i, 20) for i in range(val["n_samples"])}
+    found = {}
+    for p, data in files.items():
+        info, probs = L.wav_info(data)
+        if info is None or probs:
+            bad.append(f"C04.well-formed({p})")
+            continue
+        for i, pcm in want.items():
+            if info["data"] == pcm:
+                found.setdefault(i, []).append(p)
+    lost = [i for i in want if i not in found]
+    if lost:
+        bad.append(f"C05.no-sample-lost(sample numbers {lost})")
+    if any(len(v) > 1 for v in found.values()):
+        bad.append("C05.no-sample-duplicated")
+    # the two samples of one volume share their directory, different volumes have different directories
+    dirs = {}
+    for i, ps in found.items():
+        dirs.setdefault(i // 2, set()).add(os.path.dirname(ps[0]))
+    if any(len(d) != 1 for d in dirs.values()) or len({next(iter(d)) for d in dirs.values() if d}) != len(dirs):
+        bad.append(f"C06.one-directory-per-volume({ {k: sorted(v) for k, v in dirs.items()} })")
+    vn = val.get("vol_names")
+    if vn is not None and len(set(vn)) != len(vn):
+        bad.append(f"C10.sibling-names-distinct({vn})")
+    return bad
+
+
+def _small_dirs(tier, seed, shard=(0, 1)):
+    import random
+    rnd = random.Random(5000 + seed)
+    pool = ["KIT", "KIT", "FX+PADS", "A.", "A..", "B-", "..", ".", "STRINGS", "STRINGS", "X Y", "+A", "#1"]
+    cases = [["KIT", "KIT"], ["FX+PADS", "DRUMS"], ["A.", "A..", "A"], ["STRINGS", "BRASS", "STRINGS"], ["..", "."], ["B-", "B"], ["+A", "A"], ["KIT", "KIT", "KIT (2)"]]
+    for _ in range(6 if tier == "quick" else 80):
+        cases.append([rnd.choice(pool) for _ in range(rnd.randint(1, 4))])
+    k = 0
+    for c in cases:
+        for tail in (None, "zeros", "cut-second-partition"):
+            k += 1
+            if tail and k % 3 and tier == "quick":
+                continue
+            if k % shard[1] == shard[0]:
+                yield {"volumes": c, "tail": tail}
+
+
+@contract("e2e:dirs", props=["C06", "C05", "C10"], abstract=True)
+def _dr(c):
+    pass
+
+
+CONCRETE["e2e:dirs"] = {
+    "build": _build_dirs, "small": _small_dirs, "oracle": _oracle_dirs, "shards": 4,
+    "nontrivial": lambda i, s: s["kind"] == "return",
+    "bound": "AKAI partitions of 1..4 volumes whose NAMES come from a 13-entry pool (duplicates, characters the exporter replaces, trailing dots / hyphens, "
+             "'.', '..'), two uniquely filled samples per volume; image as written, followed by 3000 zero bytes, or followed by a cut-off second partition",
+    "timeout_s": 60.0, "budget_quick": 150, "budget_thorough": 800,
+}
